@@ -141,6 +141,10 @@ def entries(db, qt, cat, base, other, cur=None):
         ("db.Convert(qt,u,base,ndarray)", lambda u: db.Convert(qt, u, base, np.array([x, 1.0]))),
         ("db.Convert(qt,base,u,int ndarray)", lambda u: db.Convert(qt, base, u, np.array([3, 1]))),
         ("db.Convert(qt,[(u,1)],[(base,1)],x)", lambda u: db.Convert(qt, [(u, 1)], [(base, 1)], x)),
+        ("db.Convert(qt,u,base,FractionValue)", lambda u: db.Convert(qt, u, base, FractionValue(3, (1, 4)))),
+        ("db.Convert(qt,base,u,FractionValue)", lambda u: db.Convert(qt, base, u, FractionValue(3, (1, 4)))),
+        ("db.Convert(category,u,other,FractionValue)", lambda u: db.Convert(cat, u, other, FractionValue(2.5))),
+        ("FractionScalar.ConvertFractionValue", lambda u: FractionScalar.ConvertFractionValue(db, qt, u, base, FractionValue(3, (1, 4)))),
         ("db.GetDefaultCategory(u)", lambda u: db.GetDefaultCategory(u)),
         ("ChangeScalars", change_scalars),
         ("FixedArray.ChangingIndex(0,(x,u))", lambda u: FixedArray(2, cat, [x, 1.0], base).ChangingIndex(0, (5.0, u))),
@@ -313,6 +317,48 @@ def first_use_orders(ctx, spell, shard, nshards):
                 del first
 
 
+def categories_registered_later(ctx, spell, shard, nshards):
+    """A database filled step by step (`fill_categories=False`, the categories added afterwards): both spellings are asked
+    about while the unit has no category (both are refused alike), the category is registered, both are asked again -
+    what was answered for a spelling before must not stand in for what is true now."""
+    import numpy as np
+    from barril.units import Array, FractionScalar, ObtainQuantity, Scalar, UnitDatabase
+
+    for order in ("legacy asked first", "current asked first", "nothing asked before"):
+        db = UnitDatabase()
+        UnitDatabase.FillUnitDatabaseWithPosc(db, fill_categories=False)
+        full = table.build("posc")
+        with table.pushed(db):
+            forms = (
+                ("GetDefaultCategory(u)", lambda u: db.GetDefaultCategory(u)), ("Scalar(x,u)", lambda u: Scalar(1.0, u)), ("ObtainQuantity(u)", lambda u: ObtainQuantity(u)), ("Array(values,u)", lambda u: Array([1.0, 2.0], u)),
+                ("Array(ndarray,u)", lambda u: Array(np.array([1.0, 2.0]), u)), ("FractionScalar(x,u)", lambda u: FractionScalar(1.5, u)), ("Array.FromScalars", lambda u: Array.FromScalars([Scalar(1.0, u), Scalar(2.0, u)])),
+                ("ObtainQuantity(u,None,caption)", lambda u: ObtainQuantity(u, None, "a caption")), ("empty Scalar.CreateCopy(unit=u)", lambda u: Scalar.CreateEmptyScalar(2.0).CreateCopy(unit=u)),
+            )  # fmt: skip
+            todo = [(leg, cur) for i, (leg, cur) in enumerate(sorted(spell.items())) if i % nshards == shard]
+            for leg, cur in todo:
+                first = {"legacy asked first": (leg, cur), "current asked first": (cur, leg), "nothing asked before": ()}[order]
+                for sp in first:
+                    for name, fn in forms:
+                        ctx.ev()
+                        outcome(lambda: fn(sp))
+            # the categories of the shipped table, one by one
+            for c in sorted(full.categories_to_quantity_types):
+                info = full.categories_to_quantity_types[c]
+                try:
+                    db.AddCategory(c, info.quantity_type, valid_units=info.valid_units, default_unit=info.default_unit)
+                except Exception:
+                    ctx.count("later categories that could not be registered")
+            for leg, cur in todo:
+                for name, fn in forms:
+                    ctx.ev()
+                    ctx.nt(("categories later", order, leg, name))
+                    ol, oc = outcome(lambda: fn(leg)), outcome(lambda: fn(cur))
+                    if ol != oc:
+                        ctx.violation("categories-later:legacy-differs-from-current:%s" % name, {"order": order, "legacy": leg, "current": cur, "with_legacy": ol, "with_current": oc}, replay={"legacy": leg, "current": cur})
+                    elif oc[0] == "ok":
+                        ctx.count("pairs agreeing on a value after their category was registered later")
+
+
 def run(ctx):
     from barril.units import ObtainQuantity, Quantity, UnitDatabase
     from barril.units import unit_database as ud
@@ -443,6 +489,7 @@ def run(ctx):
         ctx.notes["entry_forms"] = {"with_a_value": sum(1 for k in per_entry.values() if k), "never_a_value": {n: per_entry_exc.get(n) for n in dead}}
         ctx.inconclusive_if(bool(dead) and ctx.nshards == 1, "entry forms that never produced a value: %s" % dead[:5])
         first_use_orders(ctx, spell, ctx.shard, ctx.nshards)
+        categories_registered_later(ctx, spell, ctx.shard, ctx.nshards)
         if ctx.shard == 0:
             second_database(ctx, subs)
             ctx.sample({"spellings": sorted(spell.items())[:12]})
